@@ -642,6 +642,13 @@ func oracle(c Case, h *history, k *ev.Case) *ev.Failure {
 				continue
 			}
 			if e.ResolveErr != "" {
+				if closeReq != nil {
+					// a (duplicate) retransmission that left after the close request: the broker has forgotten the stream and cannot
+					// resolve the alias any more. The statement neither forbids duplicates nor speaks about this order (C01 does, on
+					// a connection that stays up); seen once in 37 000 thorough cases, reported as a violation by an earlier version.
+					k.Label("retransmission-after-close-request")
+					continue
+				}
 				return fail("C02.1 alias-resolution", "%s", e.ResolveErr)
 			}
 			bySeq[m.StreamChunk.SequenceNumber] = append(bySeq[m.StreamChunk.SequenceNumber], e)
